@@ -7,11 +7,11 @@ EXTENDS Gossip, IOUtils, TLCExt
 
 Rec == ndJsonDeserialize(IOEnv.TRACE)
 
-VARIABLES l,
+VARIABLES l, evid,
           snap   \* global state at the start of the handshake in progress (events flagged hs)
-ovars == <<vars, hist, l, snap>>
+ovars == <<vars, hist, l, snap, evid>>
 
-ObsInit == Init /\ l = 1 /\ snap = st
+ObsInit == Init /\ l = 1 /\ snap = st /\ evid = [n \in Node |-> [x \in Node |-> 0]]
 
 HasF(e, f) == f \in DOMAIN e
 
@@ -40,7 +40,7 @@ MidSet(n, m) ==
           LET c == st[n].ns[x]  nd == m.delta[x] IN
           CheckDelta(c, nd) = "Apply" /\ c.gc > c.max /\ nd.gc < c.gc}
 
-ObsNext ==
+ObsStep ==
   /\ l <= Len(Rec)
   /\ l' = l + 1
   /\ LET e == Rec[l] IN
@@ -80,8 +80,15 @@ C01_ProgressObsStrict ==
         (Deliverable(snap, a, b, now) \/ Deliverable(snap, b, a, now)) =>
            (Advanced(snap, st', a) \/ Advanced(snap, st', b)) ]_ovars
 
+HbOf(s, x) == IF x \in DOMAIN s.ns THEN s.ns[x].hb ELSE 0
+ObsNext ==
+  /\ ObsStep
+  /\ evid' = IF Rec[l].a = "Reset" THEN [n \in Node |-> [x \in Node |-> 0]]
+             ELSE [n \in Node |-> [x \in Node |-> evid[n][x] + (IF HbOf(st'[n], x) > HbOf(st[n], x) THEN 1 ELSE 0)]]
+C18_LiveNeedsHeartbeats == \A n \in Node : \A x \in st[n].live : evid[n][x] >= 2
+
 ObsSpec == ObsInit /\ [][ObsNext]_ovars
-ObsView == <<vars, l, snap>>
+ObsView == <<vars, l, snap, evid>>
 
 ObsDone ==
   LET d == TLCGet("stats").diameter IN
